@@ -14,6 +14,8 @@ R2.6  registration: every normal exit of _parse_schema with a name passes the re
 R2.7  the cycle tracker's enter/exit calls are balanced on every path of _parse_schema (a leaked depth turns later,
       unrelated schemas into zero-field depth placeholders)                                   [typestate shared with C08]
 R2.11 the resolver's by-name registry fallback is taken only when the schema's own type agrees with the registered schema's
+R2.12 a schema that declares properties is never rendered as a TypeAlias (the alias decision is false for every such input)
+R2.13 the oneOf / anyOf parsers drop a member only when it has no type, properties, items, enum or composition (cycle placeholders stay)
 """
 from __future__ import annotations
 
@@ -106,6 +108,8 @@ def run(repo: Repo, rep: Report, tier: str) -> None:
 
     rule_exact_registry_lookups(repo, rep, "R2.10")
     rule_name_fallback_respects_kind(repo, rep, "R2.11")
+    rule_properties_never_alias(repo, rep, "R2.12")
+    rule_union_members_kept(repo, rep, "R2.13")
     # ---------------------------------------------------------------- R2.2 name content
     ucd = repo.module("core.parsing.unified_cycle_detection")
     ucc = ucd.func("unified_cycle_check")
@@ -643,3 +647,104 @@ def rule_name_fallback_respects_kind(repo: Repo, rep: Report, rule: str = "R2.11
                               f"a schema is replaced by `registry[{p_schema}.name]` whatever its own type is: the parser stores the property key as name, so a string property "
                               "called `Address` next to a schema `Address` is typed as that model and a conforming document cannot be decoded", fn.loc(c))
     rep.require(n >= 1, f"{rule}: the by-name registry fallback of resolve_schema was not found (anchor)")
+
+
+# ------------------------------------------------------------------------------------------------ R2.12 a schema with properties is never an alias
+def rule_properties_never_alias(repo: Repo, rep, rule: str = "R2.12") -> None:
+    """ModelVisitor renders a named schema as TypeAlias, Enum or dataclass.  Only the dataclass has fields: whenever the schema declares
+    `properties`, the alias decision must be false, whatever its `type` / `oneOf` / `anyOf` / `enum` are.  The defining expression of the
+    flag that guards the alias generator is evaluated over all combinations of those inputs (sa/feval.py)."""
+    from sa.feval import Unknown, environments, evaluate
+
+    mv = repo.func("visit.model.model_visitor:ModelVisitor.visit_IRSchema")
+    L = Locals(mv.node)
+    tests = [n for n in own_nodes(mv.node) if isinstance(n, ast.If) and any(
+        isinstance(c.func, ast.Attribute) and c.func.attr == "generate" and "alias" in norm(c.func.value).lower() for st in n.body for c in calls_in(st))]
+    if len(tests) != 1:
+        raise AnalysisError(f"{rule}: expected one `if <alias decision>: ... alias_generator.generate(...)` in visit_IRSchema, found {len(tests)}")
+    schema_param = next((p for p in mv.params if p != "self"), "schema")
+
+    def expand(e: ast.AST, depth: int = 0) -> ast.AST:
+        """locals written out; of several definitions the ones that are the constant False are dropped (they only withdraw the decision)"""
+        import copy
+
+        class T(ast.NodeTransformer):
+            def visit_Name(self, node):  # noqa: N802
+                if not isinstance(node.ctx, ast.Load) or node.id in mv.params or depth > 6:
+                    return node
+                ds = [v for kind, v, _ in L.defs.get(node.id, []) if kind != "param" and not (isinstance(v, ast.Constant) and v.value is False)]
+                if len(ds) == 1 and isinstance(ds[0], ast.AST):
+                    return expand(copy.deepcopy(ds[0]), depth + 1)
+                return node
+
+        return T().visit(copy.deepcopy(e))
+
+    decision = expand(tests[0].test)
+    s = schema_param
+    domains = {
+        f"{s}.name": ["Pet"], f"{s}.properties": [{}, {"id": 1}], f"{s}.enum": [None, ["a"]], f"{s}.type": ["object", "string", "integer", "array", None],
+        f"{s}.one_of": [None, [1]], f"{s}.any_of": [None, [1]], f"{s}.all_of": [None, [1]], f"{s}.items": [None], "self.discriminator_skip_list": [[]],
+    }
+    bad = None
+    n = 0
+    try:
+        for env in environments(domains):
+            n += 1
+            if env[f"{s}.properties"] and evaluate(decision, env):
+                bad = env
+                break
+    except Unknown as e:
+        raise AnalysisError(f"{rule}: the alias decision of visit_IRSchema uses a construct the finite evaluator does not model: {e}")
+    sub = f"{mv.module.relpath}:ModelVisitor.visit_IRSchema alias decision"
+    if bad is None:
+        rep.ok(rule, sub, f"false for every schema that declares properties ({n} combinations of type / enum / oneOf / anyOf / allOf evaluated)", mv.loc(tests[0]))
+    else:
+        shown = {k.split(".")[-1]: v for k, v in bad.items() if k.startswith(s + ".") and v not in (None, {}, []) and not k.endswith(".name")}
+        rep.violation(rule, sub, f"{mv.fq}|alias-with-properties",
+                      f"a schema with declared properties is rendered as a type alias when {shown}: the generated model has no fields at all "
+                      "(its properties, wire keys and required-ness are silently lost)", mv.loc(tests[0]))
+
+
+# ------------------------------------------------------------------------------------------------ R2.13 union members are dropped only when empty
+def rule_union_members_kept(repo: Repo, rep, rule: str = "R2.13") -> None:
+    """The oneOf / anyOf keyword parsers drop members that parsed to *nothing* (no type, no properties, no items, no enum, no
+    composition).  A member that carries structure - in particular the placeholder that stands for a `$ref` closing a cycle (type
+    "object", named) - must stay: it is the only thing that represents that variant in the IR.  The filter condition of each parser is
+    evaluated over all combinations of the member attributes it reads (sa/feval.py): every member with structure is kept."""
+    from sa.feval import Unknown, environments, evaluate
+
+    STRUCT = {"type": [None, "object", "string"], "properties": [{}, {"p": 1}], "items": [None, 1], "enum": [None, ["a"]], "any_of": [None, [1]], "one_of": [None, [1]],
+              "all_of": [None, [1]]}
+    n = 0
+    for mname in ("core.parsing.keywords.one_of_parser", "core.parsing.keywords.any_of_parser"):
+        mod = repo.module(mname)
+        for fn in mod.functions.values():
+            for comp in [x for x in own_nodes(fn.node) if isinstance(x, ast.ListComp) and len(x.generators) == 1 and x.generators[0].ifs
+                         and isinstance(x.generators[0].target, ast.Name) and isinstance(x.elt, ast.Name) and x.elt.id == x.generators[0].target.id]:
+                var = comp.generators[0].target.id
+                attrs = sorted({a.attr for c in comp.generators[0].ifs for a in ast.walk(c) if isinstance(a, ast.Attribute) and isinstance(a.value, ast.Name) and a.value.id == var})
+                if not (set(attrs) & set(STRUCT)):
+                    continue  # not the member filter
+                n += 1
+                dom = {f"{var}.{a}": STRUCT.get(a, [False, True]) for a in attrs}
+                for a in STRUCT:
+                    dom.setdefault(f"{var}.{a}", STRUCT[a][:1])
+                cond = ast.BoolOp(op=ast.And(), values=list(comp.generators[0].ifs)) if len(comp.generators[0].ifs) > 1 else comp.generators[0].ifs[0]
+                bad = None
+                try:
+                    for env in environments(dom):
+                        has_structure = any(env[f"{var}.{a}"] for a in STRUCT)
+                        if has_structure and not evaluate(cond, env):
+                            bad = env
+                            break
+                except Unknown as e:
+                    raise AnalysisError(f"{rule}: the member filter of {fn.qualname} uses a construct the finite evaluator does not model: {e}")
+                sub = f"{mod.relpath}:{fn.qualname} member filter"
+                if bad is None:
+                    rep.ok(rule, sub, f"only members without type, properties, items, enum and composition are dropped (attributes read: {attrs})", fn.loc(comp))
+                else:
+                    shown = {k.split(".", 1)[1]: v for k, v in bad.items() if v not in (None, {}, [], False)}
+                    rep.violation(rule, sub, f"{fn.fq}|drops-structured-member",
+                                  f"a union member with {shown} is dropped from the union: a `$ref` member that closes a reference cycle is represented by exactly such a "
+                                  "placeholder, so the variant disappears from the field's type depending on declaration order", fn.loc(comp))
+    rep.require(n >= 2, f"{rule}: only {n} union member filters found in the oneOf / anyOf parsers (floor 2)")
